@@ -331,6 +331,19 @@ pub fn run_case(case: &str, wasm0: &[u8], version: u16, span: usize, variant: Va
     }
     let mut fails: Vec<(String, String)> = vec![];
     let mut seen_lines = std::collections::HashSet::new();
+    // the base of each output sequence as written (= address of its first row), per line
+    let mut written_base: std::collections::HashMap<u64, u64> = Default::default();
+    {
+        let mut cur: Option<u64> = None;
+        for (addr, line, end) in &od.rows {
+            if *end {
+                cur = None;
+                continue;
+            }
+            let b = *cur.get_or_insert(*addr);
+            written_base.insert(*line, b);
+        }
+    }
     for (addr, line, end) in &od.rows {
         if *end {
             continue;
@@ -347,7 +360,10 @@ pub fn run_case(case: &str, wasm0: &[u8], version: u16, span: usize, variant: Va
                     // function was emitted *before* the sequence's first instruction is clamped
                     // (saturating_sub) to the sequence base
                     let seq = info.seqs.iter().find(|sq| sq.rows.iter().any(|x| x.line == *line)).unwrap();
-                    let base_out = out_addr.get(&(seq.rows[0].func, seq.rows[0].op)).copied();
+                    // the base is the first row's instruction; when that instruction was elided walrus
+                    // resolves the base through the function's range instead, and the base is what was
+                    // written
+                    let base_out = out_addr.get(&(seq.rows[0].func, seq.rows[0].op)).copied().or_else(|| written_base.get(line).copied());
                     // some live row of this sequence lies before the sequence base in the output:
                     // its offset is clamped to 0 and every later row of the sequence is then encoded
                     // relative to a decreasing address (gimli's writer cannot express that)
